@@ -178,7 +178,7 @@ impl<R: Read> JsonParserUtils for Reader<R> {
             chars.push(b'.');
             self.read_digits(&mut chars)?;
         }
-        if self.peek()? == Some(b'e' | b'E') {
+        if let Some(b'e' | b'E') = self.peek()? {
             double = true;
             chars.push(b'E');
             self.next()?;
